@@ -99,6 +99,31 @@ def run(tier, seed, replay):
                     libcases.append({"id": len(libcases), "srcb": list(src.encode()), "inputs": weird, "rep": r.randrange(4)})
                     if int(ar) == 0:
                         break
+            # every builtin with wrong-typed arguments INSIDE path expressions / updates (the interpreter's path tracking makes its own
+            # assumptions about what a native returned), and repeated uses of one compiled query (state kept in the code: regexp cache)
+            patharg = [".", "1", "\"a\"", "null", "[\"a\", null]", "{}", "[0]", "-1", "[[0]]", "(1, [0])", "empty", "error"]
+            pathctx = ["path(%s)", "[paths(%s)]?", "(%s) = 1", "(%s) |= .", "del(%s)", "path(%s | .[]?)", "path(.[]? | %s)", "[path(%s)?]", "path(first(%s))", "(%s) += 1", "try path(%s) catch .", "path(%s | %s)"]
+            nullish = [jqgen.V(x) for x in (None, [None], {"a": None}, [], {}, 0, "a", [[0]], {"a": [1]})]
+            k = 0
+            for nm in names:
+                n, ar = nm.rsplit("/", 1)
+                if n in ("input", "inputs", "halt", "halt_error", "debug", "stderr", "input_filename", "repeat", "range", "until", "while", "recurse", "limit", "combinations", "walk", "env", "builtins") or int(ar) > 2:
+                    continue
+                for _ in range(2 if quick else 12):
+                    call = n + ("(" + "; ".join(r.choice(patharg) for _ in range(int(ar))) + ")" if int(ar) else "")
+                    ctx = pathctx[k % len(pathctx)]
+                    k += 1
+                    libcases.append({"id": len(libcases), "srcb": list((ctx.replace("%s", call)).encode()), "inputs": nullish, "rep": r.randrange(4)})
+            for n in ("getpath", "setpath", "delpaths", "paths", "pick", "to_entries", "del", "path", "getpath"):
+                for a in patharg:
+                    for ctx in pathctx:
+                        call = {"setpath": "setpath(%s; 1)", "delpaths": "delpaths([%s])", "paths": "paths(%s)", "to_entries": "to_entries[%s]?"}.get(n, n + "(%s)") % a
+                        libcases.append({"id": len(libcases), "srcb": list(ctx.replace("%s", call).encode()), "inputs": nullish[:5], "rep": 0})
+            strs = [jqgen.V(x) for x in ("a", "b", "ab(", "", "a", "(")]
+            for f in ("test(%s)", "[match(%s)]", "[match(%s; \"g\")]", "capture(%s)", "[scan(%s)]", "[splits(%s)]", "split(%s; null)", "sub(%s; \"x\")", "gsub(%s; \"x\")", "test(%s; \"x\")", "test(%s; \"gi\")", "ascii_downcase | test(%s)"):
+                for re in ("\"(\"", "\"[\"", "\"a{2,1}\"", "\"\\\\\"", "\"(?<n\"", "\"a**\"", "\"(?P<x>a)(?P<x>b)\"", "\"\\\\p{Foo}\"", ".", "\"a\"", "\"\""):
+                    for wrap in ("%s", "try %s catch .", ".[]? // . | try %s catch \"bad\"", "(%s)?, (%s)?"):
+                        libcases.append({"id": len(libcases), "srcb": list(wrap.replace("%s", f % re).encode()), "inputs": strs, "rep": 0})
             clicases = []
             for _ in range(500 if quick else 12000):
                 argv = [r.choice(FLAGS) for _ in range(r.randrange(5))]
